@@ -112,6 +112,7 @@ def realise(ctx, scn, kinds_cycle):
     rng = ctx.rng
     plan = []
     idents = {}
+    clones = {}
     bad_kinds = []
     refuse = False
     for k, a in enumerate(scn["arrivals"]):
@@ -121,10 +122,14 @@ def realise(ctx, scn, kinds_cycle):
             if h not in idents:
                 idents[h] = (rand_identity(rng, typ=rng.choice([0xAC, 0xAC, rng.randrange(256)])), rng.choice([2, 3]))
             ident, ver = idents[h]
+            if h > 1 and (h - 1) in clones and rng.random() < 0.5:
+                plan.append((0.1 * (k + 1), ip, rng.choice([6445, 20086]), clones[h - 1]))      # byte-identical to what another address sent (relayed / cloned module)
+                continue
             # the address a module writes INTO its reply is whatever it believes (AP-mode default, stale lease ...): several hosts may advertise the
             # same one; the device is reported under the address that answered
             data = build(rng, ident, ip, ver, same_ip=rng.random() < 0.5) if rng.random() < 0.7 else \
                 disc.disc_reply(ver, ident["devid"], disc.disc_body("192.168.4.1", ident["port"], ident["sn"], ident["name"]), rng=rng)
+            clones.setdefault(h, data)
         else:
             kind = next(kinds_cycle)
             if kind == "xml_port_refused":
@@ -165,6 +170,30 @@ def run(ctx: Ctx) -> int:
         v["bad_kinds"] = kinds
         vectors.append(v)
         ctx.count_distinct((tuple((a["h"], a["good"]) for a in s["arrivals"]), tuple(kinds)))
+    # runs in which nobody answers, or only with data that is no reply at all; and the library default auto_connect=True with appliances of other types
+    for k in range(ctx.pick(6, 60)):
+        junk = [(0.2 * (j + 1), "10.0.9.%d" % (j + 1), 6445, ctx.rng.choice([b"", b"hello", b"M-SEARCH * HTTP/1.1\r\n", bytes(ctx.rng.randrange(1, 256) for _ in range(20))])) for j in range(k % 3)]
+        v = disc.run_discovery(junk, timeout=1)
+        v.pop("devices", None)
+        v["bad_kinds"] = ["no_reply_at_all"] * len(junk)
+        vectors.append(v)
+    for k in range(ctx.pick(8, 80)):
+        rng = ctx.rng
+        plan = []
+        for j in range(rng.choice([1, 2, 3])):
+            ident = rand_identity(rng, typ=rng.choice([0xA1, 0xAC, 0xB8, 0xE2, rng.randrange(256)]), port=6444)
+            ip = "10.0.8.%d" % (j + 1)
+            plan.append((0.2 * (j + 1), ip, 6445, build(rng, ident, ip, 2)))
+        plan.append((0.25, "10.0.8.200", 6445, bad_reply(order[k % len(order)] if order[k % len(order)] not in ("xml_port_open", "xml_port_refused") else "random", rng, "10.0.8.200")))
+        plan.sort(key=lambda x: x[0])
+
+        def tcp2(loop, net, k=k):
+            if k % 2:
+                net.connect_mode = "refuse"
+        v = disc.run_discovery(plan, auto_connect=True, tcp_devices=tcp2, timeout=2)
+        v.pop("devices", None)
+        v["bad_kinds"] = ["auto_connect"]
+        vectors.append(v)
     judge(ctx, vectors, "C18")
     kinds_seen = {}
     for v in vectors:
